@@ -51,7 +51,7 @@ func init() {
 			if t == "quick" {
 				return "D=3 over 7 symbols + 4 alternating words of length 30 per scenario; 9 density values x 6 carbon levels (0-35 %, organic ones on half of the water/depth grid) x 3 water levels x 4 depths"
 			}
-			return "D=5 over 7 symbols + alternating words; 16 density values x 6 carbon levels (0-35 %) x 5 water levels x 4 depths"
+			return "D=4 over 7 symbols + alternating words; 16 density values x 6 carbon levels (0-35 %) x 5 water levels x 4 depths"
 		},
 		Budget: func(t string) time.Duration {
 			if t == "quick" {
@@ -71,7 +71,7 @@ func init() {
 			if tier == "thorough" {
 				bds = append(bds, bd{2, 0}, bd{4, 0}, bd{3, 1.1}, bd{3, 1.3}, bd{3, 1.5}, bd{3, 1.7}, bd{3, 1.9})
 				waters = []float64{0, 0.3, 0.6, 1.0, 1.3}
-				d = 5
+				d = 4
 			}
 			k := 0
 			for _, b := range bds {
